@@ -71,7 +71,9 @@ type faultConn struct{ c *sqlite3.SQLiteConn }
 
 func (f *faultConn) Prepare(q string) (driver.Stmt, error) { return f.c.Prepare(q) }
 func (f *faultConn) Close() error                          { return f.c.Close() }
-func (f *faultConn) Begin() (driver.Tx, error)             { return f.BeginTx(context.Background(), driver.TxOptions{}) }
+func (f *faultConn) Begin() (driver.Tx, error) {
+	return f.BeginTx(context.Background(), driver.TxOptions{})
+}
 func (f *faultConn) BeginTx(ctx context.Context, o driver.TxOptions) (driver.Tx, error) {
 	if plan.hit("begin") {
 		return nil, errInjected
